@@ -182,6 +182,9 @@ def spec(tier, seed):
     # (probed: InstructionGenerator::generate_fix_string_length on one by-reference argument of symbolic STRING * n type -
     # CBMC resource failure after 140-200 s; Expression::expression_type clones the recursive ExpressionType enum.  Outside.)
 
+    # (probed again: fix_length on a text of 1..3 characters over {x, y, NUL} built with String::push, target length 0..5: CBMC out of
+    # memory at 8 GB / resource failure after 130 s (str::find -> memchr, String::pop); only the empty text is decided.  Outside.)
+
     return b.build(
         tier,
         bounds="1-, 2-, 3-dimensional shapes; lower bounds any i8; extents <= 4, 4x4, 2x2x2 (quick) and <= 8, 6x4, 4x3x2, 3x3x3 (thorough); "
